@@ -48,13 +48,12 @@ func (c *Client) Glob(pattern string) (matches []string, err error) {
 	}
 
 	if !hasMeta(pattern) {
-		file, err := c.Lstat(pattern)
-		if err != nil {
+		if _, err := c.Lstat(pattern); err != nil {
 			return nil, nil
 		}
-		dir, _ := Split(pattern)
-		dir = cleanGlobPath(dir)
-		return []string{Join(dir, file.Name())}, nil
+		// as filepath.Glob does: the match is the pattern as written (rebuilding
+		// it from its directory part and the base name turned "dir/" into "dir/dir")
+		return []string{pattern}, nil
 	}
 
 	dir, file := Split(pattern)
